@@ -269,6 +269,11 @@ enum Ev {
     Uns(bool, bool),
     /// the outstation sends its last unsolicited response again, byte for byte (it saw no confirm)
     UnsRetry,
+    /// the user disables the channel and enables it again: a new session, like after a lost connection
+    DisableEnable,
+    /// DELAY_MEASURE (non-LAN time synchronisation) answered with one header that is not a single
+    /// fine time delay (here: g52v1, the coarse delay): a failed attempt like any other
+    WrongDelayObject,
     Reconnect,
     /// advance to the next timer
     Tick,
@@ -294,6 +299,8 @@ fn alphabet() -> Vec<Ev> {
         Ev::IdealSplit(app::iin1::NEED_TIME, 0),
         Ev::IdealSplit(app::iin1::CLASS_1_EVENTS, app::iin2::EVENT_BUFFER_OVERFLOW),
         Ev::UnsRetry,
+        Ev::DisableEnable,
+        Ev::WrongDelayObject,
     ]
 }
 
@@ -560,6 +567,30 @@ impl Scenario for C17 {
                     sim.connect();
                     m.reconnect();
                     last_uns = None;
+                }
+                Ev::DisableEnable => {
+                    let mut ch = sim.channel.clone();
+                    sim.call_now("disable", async move { ch.disable().await });
+                    sim.advance(500);
+                    let mut ch = sim.channel.clone();
+                    sim.call_now("enable", async move { ch.enable().await });
+                    if sim.pipe.as_ref().map(|p| p.is_closed()).unwrap_or(true) {
+                        sim.connect();
+                    }
+                    m.reconnect();
+                    last_uns = None;
+                }
+                Ev::WrongDelayObject => {
+                    let is_delay_measure = matches!(&m.out, Some((Kind::TimeSync1, _, req)) if req.len() >= 2 && req[1] == fc::DELAY_MEASURE);
+                    if is_delay_measure {
+                        if let Some((k, seq, _req)) = m.out.take() {
+                            let r = app::response(app::ctrl(true, true, false, false, seq), fc::RESPONSE, 0x10, 0, &[52, 1, 0x07, 1, 1, 0]);
+                            m.process_iin(0x10, 0);
+                            m.fail(k, t_before);
+                            sim.respond(&r);
+                            sent = Some(r);
+                        }
+                    }
                 }
             }
             res.transitions += 1;
